@@ -159,7 +159,11 @@ Inductive op :=
 | OUnlink (i : nat)
 | OCopyLike (i j : nat)
 | OThermo (i k : nat)
-| ORoundTrip (i k : nat).
+| ORoundTrip (i k : nat)
+| OGetData (i : nat) (w : view) (u r k : nat)          (* s.i<w>.get_data(units, key): the view's own units object *)
+| OSetData (i : nat) (w : view) (u r k : nat) (v : Q)  (* s.i<w>.set_data(v, units, key) *)
+| OAssignView (i j : nat) (w : view)                   (* s_i.<w> = s_j.<w>  (mol / mass / vol of single-phase streams) *)
+| OCopyRow (i : nat) (w : view) (r1 r2 : nat).         (* ms.i<w>[phase r1] = ms.i<w>[phase r2] *)
 
 Section Model.
 Variable Vf : nat -> phase -> Q -> Q -> Q.       (* molar volume oracle: chemical, phase in {g,l,s}, T, P *)
@@ -298,14 +302,15 @@ Definition set_item h s (w : view) (r k : nat) (v : Q) : heap * outcome :=
 (* ---------- totals ---------- *)
 Definition F_mol h s : Q := qsum (map qsum (all_rows h s)).
 Definition F_mass h s : Q := qsum (map (fun r => vdot (mwvec (pkg s)) r) (all_rows h s)).
-(* mixture.V / xV of the ideal mixture on the normalised composition (through the property memo, see props/C11.py) *)
-Definition vmix h s : Q :=
-  let F := F_mol h s in
-  let T := fst (gettp h (tc s)) in
-  let P := snd (gettp h (tc s)) in
-  qsum (map (fun x => qsum (map2 (fun m g => (m / F) * Vf g (base (src_phase h (snd x))) T P)
-                                 (getrow h (fst x)) (chems (pkg s))))
-            (srcs h s)).
+(* Stream._get_property / MultiStream._get_property: the memo key is the literal (phase | phases, T, P) and the
+   normalised composition (a dict per row); mixture.V / xV of the ideal mixture is a function of that key *)
+Record pkey := mkpk { k_multi : bool; k_rows : list (phase * vec); k_T : Q; k_P : Q }.
+Definition key_of h s : pkey :=
+  mkpk (multi s) (combine (cur_phases h s) (map (fun r => vdivs r (F_mol h s)) (all_rows h s)))
+       (fst (gettp h (tc s))) (snd (gettp h (tc s))).
+Definition vmix_key (c : list nat) (k : pkey) : Q :=
+  qsum (map (fun x => qsum (map2 (fun z g => z * Vf g (base (fst x)) (k_T k) (k_P k)) (snd x) c)) (k_rows k)).
+Definition vmix h s : Q := vmix_key (chems (pkg s)) (key_of h s).
 Definition F_vol h s : Q := if qzerob (F_mol h s) then 0 else 1000 * vmix h s * F_mol h s.
 Definition total h s (w : view) : Q :=
   match w with VMol => F_mol h s | VMass => F_mass h s | VVol => F_vol h s end.
@@ -491,6 +496,103 @@ Definition copy_like h i s o (same : bool) : heap * outcome :=
       else (h, XDomain)           (* other phase sets: C13's subject *)
   end.
 
+(* pint through AbsoluteUnitsOfMeasure.conversion_factor of the view's units object: another dimension raises *)
+Definition conv (w : view) (u : nat) : res Q :=
+  match unit_of u with
+  | Some (w', f) => if view_eqb w w' then Ok f else Err EDim
+  | None => Err EDim
+  end.
+(* s.imass / s.ivol is evaluated (and cached) before the units are looked at *)
+Definition touch_view h s (w : view) : heap :=
+  match w with
+  | VMol => h
+  | VMass => fst (by_mass h s)
+  | VVol => store_vol h s (by_volume h s)
+  end.
+
+(* SparseVector[:] = other view's SparseVector: dct.clear(); DictionaryView.update: for every stored key of the
+   source, output() of the source then input() of the destination *)
+Fixpoint xfer_mass (mws mwd : vec) (vals : vec) : vec :=
+  match vals, mws, mwd with
+  | x :: t, a :: ms, b :: md => (if qzerob x then 0 else x * a / b) :: xfer_mass ms md t
+  | _, _, _ => map (fun _ => 0) vals
+  end.
+Fixpoint xfer_vol h (vo vs : volview) (ro rs : vrow) (k : nat) (vals : vec) : vec * vrow * vrow :=
+  match vals with
+  | [] => ([], ro, rs)
+  | x :: t =>
+      if qzerob x then let '(o, ro', rs') := xfer_vol h vo vs ro rs (S k) t in (0 :: o, ro', rs')
+      else let '(Vo, ro1) := vfactor h vo ro k in
+           let '(Vd, rs1) := vfactor h vs rs k in
+           let '(o, ro', rs') := xfer_vol h vo vs ro1 rs1 (S k) t in (x * Vo / Vd :: o, ro', rs')
+  end.
+Definition zero_like (v : vec) : vec := vzero (length v).
+
+(* Stream.mol / mass / vol setter with the other stream's view as the value *)
+Definition assign_view h s o (w : view) : heap * outcome :=
+  if multi s || multi o || negb (Nat.eqb (pkg s) (pkg o)) then (h, XDomain)
+  else match w with
+  | VMol => if Nat.eqb (sdata s) (sdata o) then (h, XNone)
+            else (put_row h (sdata s) (getrow h (sdata o)), XNone)
+  | VMass =>
+      let '(h1, mo) := by_mass h o in
+      let '(h2, ms) := by_mass h1 s in
+      if Nat.eqb (cch s) (cch o) then (h2, XNone)
+      else match mv_rows ms, mv_rows mo with
+           | (d, _) :: _, (e, _) :: _ =>
+               let h3 := put_row h2 d (zero_like (getrow h2 d)) in
+               (put_row h3 d (xfer_mass (mwvec (mv_pkg mo)) (mwvec (mv_pkg ms)) (getrow h3 e)), XNone)
+           | _, _ => (h2, XErr EIndex)
+           end
+  | VVol =>
+      let vo := by_volume h o in
+      let h1 := store_vol h o vo in
+      let vs := by_volume h1 s in
+      let h2 := store_vol h1 s vs in
+      if Nat.eqb (cch s) (cch o) && Nat.eqb (tc s) (tc o) then (h2, XNone)
+      else match vv_rows vs, vv_rows vo with
+           | rs :: _, ro :: _ =>
+               let h3 := put_row h2 (vr_dct rs) (zero_like (getrow h2 (vr_dct rs))) in
+               let '(vals, ro', rs') := xfer_vol h3 vo vs ro rs O (getrow h3 (vr_dct ro)) in
+               let h4 := store_vol h3 o (mkvv (upd (vv_rows vo) O ro') (vv_tp vo) (vv_pkg vo)) in
+               let h5 := store_vol h4 s (mkvv (upd (vv_rows vs) O rs') (vv_tp vs) (vv_pkg vs)) in
+               (put_row h5 (vr_dct rs) vals, XNone)
+           | _, _ => (h2, XErr EIndex)
+           end
+  end.
+
+(* ms.i<w>[phase r1] = ms.i<w>[phase r2]: reset_sparse_chemical_data on row r1 of the view with row r2 of the same view *)
+Definition copy_row_view h s (w : view) (r1 r2 : nat) : heap * outcome :=
+  if negb (multi s) then (h, XDomain)
+  else match w with
+  | VMol =>
+      match nth_error (rowrefs h s) r1, nth_error (rowrefs h s) r2 with
+      | Some d, Some e => if Nat.eqb r1 r2 then (h, XNone) else (put_row h d (getrow h e), XNone)
+      | _, _ => (h, XErr EIndex)
+      end
+  | VMass =>
+      let '(h1, mv) := by_mass h s in
+      match nth_error (mv_rows mv) r1, nth_error (mv_rows mv) r2 with
+      | Some (d, _), Some (e, _) =>
+          if Nat.eqb r1 r2 then (h1, XNone)
+          else let h2 := put_row h1 d (zero_like (getrow h1 d)) in
+               (put_row h2 d (xfer_mass (mwvec (mv_pkg mv)) (mwvec (mv_pkg mv)) (getrow h2 e)), XNone)
+      | _, _ => (h1, XErr EIndex)
+      end
+  | VVol =>
+      let vv := by_volume h s in
+      let h1 := store_vol h s vv in
+      match nth_error (vv_rows vv) r1, nth_error (vv_rows vv) r2 with
+      | Some rd, Some ro =>
+          if Nat.eqb r1 r2 then (h1, XNone)
+          else let h2 := put_row h1 (vr_dct rd) (zero_like (getrow h1 (vr_dct rd))) in
+               let '(vals, ro', rd') := xfer_vol h2 vv vv ro rd O (getrow h2 (vr_dct ro)) in
+               let h3 := store_vol h2 s (mkvv (upd (upd (vv_rows vv) r2 ro') r1 rd') (vv_tp vv) (vv_pkg vv)) in
+               (put_row h3 (vr_dct rd) vals, XNone)
+      | _, _ => (h1, XErr EIndex)
+      end
+  end.
+
 (* Indexer.reset_chemicals: values follow their chemical; returns the old (data, cache) container *)
 Definition remap (oldc newc : list nat) (v : vec) : vec :=
   map (fun g => match index_of g oldc with Some j => nthq v j | None => 0 end) newc.
@@ -605,12 +707,166 @@ Definition step h (o : op) : heap * outcome :=
       end)
   | OThermo i k => withs i (fun s => reset_thermo h i s k)
   | ORoundTrip i k => withs i (fun s => round_trip h i s k)
+  | OGetData i w u r k => withs i (fun s =>
+      match conv w u with
+      | Err e => (touch_view h s w, XErr e)
+      | Ok f => lift (get_item h s w r k) (fun x => f * x)
+      end)
+  | OSetData i w u r k v => withs i (fun s =>
+      match conv w u with
+      | Err e => (touch_view h s w, XErr e)
+      | Ok f => set_item h s w r k (v / f)
+      end)
+  | OAssignView i j w => withs i (fun s =>
+      match nth_error (streams h) j with
+      | Some o => if Nat.eqb i j then (h, XDomain) else assign_view h s o w
+      | None => (h, XErr EIndex)
+      end)
+  | OCopyRow i w r1 r2 => withs i (fun s => copy_row_view h s w r1 r2)
   end.
 
 Fixpoint run h (ops : list op) : heap * list outcome :=
   match ops with
   | [] => (h, [])
   | o :: t => let '(h1, x) := step h o in let '(h2, xs) := run h1 t in (h2, x :: xs)
+  end.
+
+(* ---------- state kept between calls outside the indexers ----------
+   u_flow  Stream._flow_cache: units string -> (name, factor)
+   u_fac   AbsoluteUnitsOfMeasure.factor_cache of the units object of each dimension: (dimension, units) -> factor
+   u_pm    per stream: _property_cache_key and _property_cache['V'] (the only property these histories read) *)
+Record ustate := mkU {
+  uh : heap; u_flow : list (nat * (view * Q)); u_fac : list (view * nat * Q); u_pm : list (option (pkey * Q))
+}.
+Definition with_heap U h := mkU h (u_flow U) (u_fac U) (u_pm U).
+Definition liftU U (x : heap * outcome) : ustate * outcome := (with_heap U (fst x), snd x).
+
+Fixpoint fac_find (w : view) (u : nat) (l : list (view * nat * Q)) : option Q :=
+  match l with
+  | [] => None
+  | (w', u', f) :: t => if view_eqb w w' && Nat.eqb u u' then Some f else fac_find w u t
+  end.
+Fixpoint flow_find (u : nat) (l : list (nat * (view * Q))) : option (view * Q) :=
+  match l with
+  | [] => None
+  | (u', x) :: t => if Nat.eqb u u' then Some x else flow_find u t
+  end.
+
+(* AbsoluteUnitsOfMeasure.conversion_factor of the units object of dimension w *)
+Definition cfactor U (w : view) (u : nat) : ustate * res Q :=
+  match fac_find w u (u_fac U) with
+  | Some f => (U, Ok f)
+  | None => match conv w u with
+            | Ok f => (mkU (uh U) (u_flow U) ((w, u, f) :: u_fac U) (u_pm U), Ok f)
+            | Err e => (U, Err e)
+            end
+  end.
+(* Stream._get_flow_name_and_factor: the dimensionality is checked before the factor is asked for *)
+Definition dim_of (u : nat) : option view := option_map fst (unit_of u).
+Definition flow_lookup U (u : nat) : ustate * res (view * Q) :=
+  match flow_find u (u_flow U) with
+  | Some x => (U, Ok x)
+  | None =>
+      match dim_of u with
+      | None => (U, Err EDim)
+      | Some w => let '(U1, r) := cfactor U w u in
+                  match r with
+                  | Ok f => (mkU (uh U1) ((u, (w, f)) :: u_flow U1) (u_fac U1) (u_pm U1), Ok (w, f))
+                  | Err e => (U1, Err e)
+                  end
+      end
+  end.
+
+Definition prow_eqb (a b : phase * vec) : bool := phase_eqb (fst a) (fst b) && veqb (snd a) (snd b).
+Definition pkey_eqb (a b : pkey) : bool :=
+  Bool.eqb (k_multi a) (k_multi b) && list_eqb prow_eqb (k_rows a) (k_rows b)
+  && qeqb (k_T a) (k_T b) && qeqb (k_P a) (k_P b).
+Definition pm_get U (i : nat) : option (pkey * Q) := nth i (u_pm U) None.
+Definition pm_set U (i : nat) (x : option (pkey * Q)) : ustate := mkU (uh U) (u_flow U) (u_fac U) (upd (u_pm U) i x).
+
+(* F_vol getter: 1000 * self.V * F_mol if F_mol else 0, with V through _get_property *)
+Definition F_volU U (i : nat) s : ustate * Q :=
+  let h := uh U in
+  if qzerob (F_mol h s) then (U, 0)
+  else
+    let k := key_of h s in
+    let miss := (pm_set U i (Some (k, vmix_key (chems (pkg s)) k)), 1000 * vmix_key (chems (pkg s)) k * F_mol h s) in
+    match pm_get U i with
+    | Some (k', v) => if pkey_eqb k' k then (U, 1000 * v * F_mol h s) else miss
+    | None => miss
+    end.
+Definition totalU U (i : nat) s (w : view) : ustate * Q :=
+  match w with VVol => F_volU U i s | _ => (U, total (uh U) s w) end.
+Definition set_totalU U (i : nat) s (w : view) (v : Q) : ustate * outcome :=
+  let '(U1, F) := totalU U i s w in
+  let h := uh U1 in
+  match w with
+  | VMass => if negb (qzerob F) then (with_heap U1 (scale_all h s (v / F)), XNone)
+             else if negb (qzerob v) then (U1, XErr EOther) else (with_heap U1 (empty_all h s), XNone)
+  | _ => if qzerob F then (U1, XErr EOther) else (with_heap U1 (scale_all h s (v / F)), XNone)
+  end.
+
+Definition is_none (x : outcome) : bool := match x with XNone => true | _ => false end.
+
+Definition stepU U (o : op) : ustate * outcome :=
+  let h := uh U in
+  let withs i (f : stream -> ustate * outcome) :=
+    match nth_error (streams h) i with Some s => f s | None => (U, XErr EIndex) end in
+  match o with
+  | OTotal i w => withs i (fun s => let '(U1, x) := totalU U i s w in (U1, XMat [[x]]))
+  | OGetFlow i u r k => withs i (fun s =>
+      let '(U1, q) := flow_lookup U u in
+      match q with
+      | Err e => (U1, XErr e)
+      | Ok (w, f) => liftU U1 (lift (get_item (uh U1) s w r k) (fun x => f * x))
+      end)
+  | OSetFlow i u r k v => withs i (fun s =>
+      let '(U1, q) := flow_lookup U u in
+      match q with
+      | Err e => (U1, XErr e)
+      | Ok (w, f) => liftU U1 (set_item (uh U1) s w r k (v / f))
+      end)
+  | OGetTotal i u => withs i (fun s =>
+      let '(U1, q) := flow_lookup U u in
+      match q with
+      | Err e => (U1, XErr e)
+      | Ok (w, f) => let '(U2, x) := totalU U1 i s w in (U2, XMat [[f * x]])
+      end)
+  | OSetTotal i u v => withs i (fun s =>
+      let '(U1, q) := flow_lookup U u in
+      match q with
+      | Err e => (U1, XErr e)
+      | Ok (w, f) => set_totalU U1 i s w (v / f)
+      end)
+  | OSetF i w v => withs i (fun s => set_totalU U i s w v)
+  | OGetData i w u r k => withs i (fun s =>
+      let '(U1, q) := cfactor U w u in
+      match q with
+      | Err e => (with_heap U1 (touch_view (uh U1) s w), XErr e)
+      | Ok f => liftU U1 (lift (get_item (uh U1) s w r k) (fun x => f * x))
+      end)
+  | OSetData i w u r k v => withs i (fun s =>
+      let '(U1, q) := cfactor U w u in
+      match q with
+      | Err e => (with_heap U1 (touch_view (uh U1) s w), XErr e)
+      | Ok f => liftU U1 (set_item (uh U1) s w r k (v / f))
+      end)
+  (* reset_cache() call sites: unlink, _reset_thermo (another package), MultiStream.phases (other phases) *)
+  | OUnlink i => let '(U1, x) := liftU U (step h o) in (if is_none x then pm_set U1 i None else U1, x)
+  | OThermo i k => withs i (fun s =>
+      let '(U1, x) := liftU U (step h o) in (if Nat.eqb (pkg s) k then U1 else pm_set U1 i None, x))
+  | OPhases i l => withs i (fun s =>
+      let '(U1, x) := liftU U (step h o) in
+      let reset := multi s && is_none x &&
+                   match psort l with _ :: _ :: _ => negb (phases_eqb (psort l) (phs s)) | _ => false end in
+      (if reset then pm_set U1 i None else U1, x))
+  | _ => liftU U (step h o)
+  end.
+
+Fixpoint runU U (ops : list op) : ustate * list outcome :=
+  match ops with
+  | [] => (U, [])
+  | o :: t => let '(U1, x) := stepU U o in let '(U2, xs) := runU U1 t in (U2, x :: xs)
   end.
 
 (* ---------- construction of the initial store ---------- *)
@@ -633,6 +889,7 @@ Definition add_stream h (x : init) : heap :=
       set_streams h4 (streams h4 ++ [mkstream true a O l k c t])
   end.
 Definition build (l : list init) : heap := fold_left add_stream l heap0.
+Definition buildU (l : list init) : ustate := mkU (build l) [] [] (repeat None (length l)).
 
 (* ---------- the final observation of every stream ---------- *)
 Record fin := mkfin {
@@ -682,11 +939,10 @@ Definition pkgstub : list (list nat) := [[0; 1; 2]; [2; 0; 3; 1]]%nat.
 
 Definition check_case (utab : list (option (view * Q))) (l : list init) (ops : list op)
            (obs : list outcome) (fins : list fin) : bool :=
-  let h0 := build l in
-  let '(h1, xs) := run vstub mwstub pkgstub utab h0 ops in
+  let '(U1, xs) := runU vstub mwstub pkgstub utab (buildU l) ops in
+  let h1 := uh U1 in
   list_eqb outcome_eqb xs obs
   && list_eqb fin_eqb (snapshots vstub mwstub pkgstub h1 (length (streams h1)) O) fins.
 Definition show_case (utab : list (option (view * Q))) (l : list init) (ops : list op) :=
-  let h0 := build l in
-  let '(h1, xs) := run vstub mwstub pkgstub utab h0 ops in
-  (xs, snapshots vstub mwstub pkgstub h1 (length (streams h1)) O, h1).
+  let '(U1, xs) := runU vstub mwstub pkgstub utab (buildU l) ops in
+  (xs, snapshots vstub mwstub pkgstub (uh U1) (length (streams (uh U1))) O, U1).
